@@ -1,6 +1,6 @@
 // C02 correspondence driver: real dhcp.Server (+dhcp.Pool) and real dhcpv6.Server (+legacy pools)
-// vs Model/Dhcp4.v and Model/Dhcp6.v.  Streams: corpus4, corpus6, dhcp4 (exhaustive + random),
-// dhcp6 (exhaustive + random).
+// vs Model/Dhcp4.v and Model/Dhcp6.v.  Streams: corpus4, corpus6, dhcp4x / dhcp6x (exhaustive),
+// dhcp4b (lease-expiry boundary scripts, exhaustive), dhcp4 / dhcp6 (random).
 package main
 
 import (
@@ -133,8 +133,11 @@ func newSrv4(c *Case4) *srv4 {
 	return &srv4{s: s, c: c}
 }
 
+// expiry in virtual time.  A lease granted at virtual instant t0 for L seconds and aged by the
+// advances since has ExpiresAt = (real now) + L - (vnow - t0) - drift, where 0 < drift < 1 s is the
+// real time the case has been running (run4/run6 re-run a case that took longer): Ceil undoes it.
 func (v *srv4) expiry(t time.Time) uint64 {
-	rem := int64(math.Round(time.Until(t).Seconds()))
+	rem := int64(math.Ceil(time.Until(t).Seconds()))
 	e := v.vnow + rem
 	if e < 0 {
 		e = 0
@@ -370,14 +373,40 @@ func (v *srv4) exec(o Op4) string {
 	return "(" + opT + ",\n   (" + rep + ", " + sn + "))"
 }
 
+// maxDrift: the servers read the real clock; a case stands for one virtual instant per Advance only
+// while its whole real running time stays well below one second (see expiry).  On a loaded machine
+// a case that took longer is re-run (same description, fresh server).
+const maxDrift = 600 * time.Millisecond
+
 func run4(c Case4) vh.Case {
+	for try := 0; ; try++ {
+		t0 := time.Now()
+		vc := run4once(c)
+		if time.Since(t0) < maxDrift || try >= 20 {
+			if try >= 20 {
+				vc.Tags = append(vc.Tags, "slow-case:drift-not-bounded")
+			}
+			return vc
+		}
+	}
+}
+
+func run4once(c Case4) vh.Case {
 	v := newSrv4(&c)
 	tags := map[string]bool{}
 	var tr []string
 	conc := c
 	conc.Ops = nil
 	guard := true
+	owner := map[int]int{} // circuit-id -> the one client using it (-1: shared)
 	for _, o := range c.Ops {
+		if o.Cid != 0 && o.K != "advance" && o.K != "cleanup" {
+			if w, ok := owner[o.Cid]; ok && w != o.C {
+				owner[o.Cid] = -1
+			} else if !ok {
+				owner[o.Cid] = o.C
+			}
+		}
 		if o.Sym != "" {
 			tags[o.K+"-addr:"+o.Sym] = true
 		}
@@ -389,10 +418,19 @@ func run4(c Case4) vh.Case {
 		}
 		tr = append(tr, v.exec(o))
 	}
-	if guard {
+	owned := true
+	for _, w := range owner {
+		if w < 0 {
+			owned = false
+		}
+	}
+	switch {
+	case guard:
 		tags["guard:no-relayed-circuit-id"] = true
-	} else {
-		tags["defect-stream:relayed-circuit-id"] = true
+	case owned:
+		tags["guard:cid-owned(relayed-circuit-ids,one-MAC-each)"] = true
+	default:
+		tags["defect-stream:relayed-circuit-id-shared"] = true
 	}
 	size := uint64(1) << (32 - c.Bits)
 	cfg := fmt.Sprintf("{| c_net := %d; c_size := %d; c_gw := %d; c_lt := %d |}", c.Net, size, c.GW, c.Lease)
@@ -444,14 +482,36 @@ func alphabet4(nc int, full bool) []Op4 {
 	return a
 }
 
-func enum4(pool Case4, alpha []Op4, depth int, emit func(Case4)) {
+// canonical: clients make their first appearance in the order 0, 1, 2, ... (the alphabet being the
+// same for every client, any other sequence is one of these with the clients renamed; MACs and
+// DUIDs are only compared for equality by the servers).
+func canonical(cs []int) bool {
+	next := 0
+	for _, c := range cs {
+		if c > next {
+			return false
+		}
+		if c == next {
+			next++
+		}
+	}
+	return true
+}
+
+func enum4(pool Case4, alpha []Op4, depth int, sym bool, emit func(Case4)) {
 	idx := make([]int, depth)
 	for {
 		c := pool
+		var cs []int
 		for _, i := range idx {
 			c.Ops = append(c.Ops, alpha[i])
+			if k := alpha[i].K; k != "advance" && k != "cleanup" {
+				cs = append(cs, alpha[i].C)
+			}
 		}
-		emit(c)
+		if !sym || canonical(cs) {
+			emit(c)
+		}
 		k := depth - 1
 		for k >= 0 {
 			idx[k]++
@@ -467,11 +527,88 @@ func enum4(pool Case4, alpha []Op4, depth int, emit func(Case4)) {
 	}
 }
 
+// boundary4: lease-expiry boundary cases, enumerated exhaustively.  Client A acquires (optionally renews
+// at L/2), then time advances to lease-1 / lease / lease+1 after the last ACK, a cleanup tick runs or
+// not, then one of: A renews (option 50 / ciaddr: INIT-REBOOT and RENEWING forms), A DISCOVERs, B
+// REQUESTs A's address, B DISCOVERs; B tries to acquire (DISCOVER + REQUEST) or not; a second tick or
+// not; a final probe (A renews / a third client C REQUESTs a held address) and C DISCOVERs.  relayCid: 0 = direct,
+// 1 = every message relayed with the client's own circuit-id (guard cid_owned), 2 = relayed with one
+// shared circuit-id (K02a stream).
+func boundary4(pool Case4, relayCid int, renews, mids []int, emit func(Case4)) {
+	dress := func(o Op4) Op4 {
+		switch relayCid {
+		case 1:
+			o.Relay, o.Cid = true, o.C+1
+		case 2:
+			o.Relay, o.Cid = true, 1
+		}
+		return o
+	}
+	for _, renew := range renews {
+		for _, adv := range []int{lease4 - 1, lease4, lease4 + 1} {
+			for tick1 := 0; tick1 < 2; tick1++ {
+				for act := 0; act < 5; act++ {
+					for _, mid := range mids {
+						for tick2 := 0; tick2 < 2; tick2++ {
+							for fin := 0; fin < 2; fin++ {
+								c := pool
+								add := func(o Op4) {
+									if o.K != "advance" && o.K != "cleanup" {
+										o = dress(o)
+									}
+									c.Ops = append(c.Ops, o)
+								}
+								add(Op4{K: "discover"})
+								add(Op4{K: "request", Sym: "own"})
+								if renew == 1 {
+									add(Op4{K: "advance", D: lease4 / 2})
+									add(Op4{K: "request", Sym: "own", UseCi: true})
+								}
+								add(Op4{K: "advance", D: adv})
+								if tick1 == 1 {
+									add(Op4{K: "cleanup"})
+								}
+								switch act {
+								case 0:
+									add(Op4{K: "request", Sym: "own"})
+								case 1:
+									add(Op4{K: "request", Sym: "own", UseCi: true})
+								case 2:
+									add(Op4{K: "discover"})
+								case 3:
+									add(Op4{K: "request", C: 1, Sym: "other"})
+								case 4:
+									add(Op4{K: "discover", C: 1})
+								}
+								if mid == 1 { // another client tries to acquire in between
+									add(Op4{K: "discover", C: 1})
+									add(Op4{K: "request", C: 1, Sym: "own"})
+								}
+								if tick2 == 1 {
+									add(Op4{K: "cleanup"})
+								}
+								if fin == 0 {
+									add(Op4{K: "request", Sym: "own"})
+								} else {
+									add(Op4{K: "request", C: 2, Sym: "other"})
+								}
+								add(Op4{K: "discover", C: 2})
+								emit(c)
+							}
+						}
+					}
+				}
+			}
+		}
+	}
+}
+
 func rand4(r *vh.Rng, maxOps int) Case4 {
 	ps := pools4()
 	c := ps[r.Intn(len(ps))]
 	nc := 2 + r.Intn(2)
-	circuits := r.Chance(1, 3) // one third of the random cases use relayed circuit-ids (defect stream)
+	circuits := r.Chance(1, 3)               // one third of the random cases use relayed circuit-ids shared between clients (defect stream)
+	ownedCids := !circuits && r.Chance(1, 2) // another third: relayed circuit-ids, each used by one client only (guard cid_owned)
 	n := 3 + r.Intn(maxOps-2)
 	syms := []string{"own", "own", "own", "other", "other", "free", "net", "bcast", "gw", "out", "declined", "zero", "none"}
 	for i := 0; i < n; i++ {
@@ -490,11 +627,22 @@ func rand4(r *vh.Rng, maxOps int) Case4 {
 			o.K, o.UseCi = "inform", true
 			o.Sym = []string{"own", "other", "free", "zero", "bcast", "out", "none"}[r.Intn(7)]
 		case x < 90:
-			o.K, o.D = "advance", []int{0, 1, lease4 - 1, lease4 + 1, lease4 / 2, 3 * lease4}[r.Intn(6)]
+			o.K, o.D = "advance", []int{0, 1, 1, lease4 - 2, lease4 - 1, lease4, lease4 + 1, lease4 / 2, 3 * lease4}[r.Intn(9)]
 		default:
 			o.K = "cleanup"
 		}
-		if o.K != "advance" && o.K != "cleanup" {
+		if ownedCids && o.K != "advance" && o.K != "cleanup" {
+			// client c owns circuit-ids c+1 and c+5 (a CPE moved to another port renews from there)
+			if r.Chance(2, 3) {
+				o.Relay = r.Chance(4, 5)
+				o.Cid = o.C + 1
+				if r.Chance(1, 4) {
+					o.Cid = o.C + 5
+				}
+			} else {
+				o.Relay = r.Chance(1, 3)
+			}
+		} else if o.K != "advance" && o.K != "cleanup" {
 			if r.Chance(1, 4) {
 				o.Cid = 1 + r.Intn(2) // option 82 without relay: stored, never looked up
 			}
@@ -613,7 +761,7 @@ func (v *srv6) snapshot() (dhcpv6.VerifC02Snapshot, string) {
 			p = "(" + nOf(l.Prefix.IP) + " + 1)"
 		}
 		if !l.ValidEnd.IsZero() {
-			e := v.vnow + int64(math.Round(time.Until(l.ValidEnd).Seconds()))
+			e := v.vnow + int64(math.Ceil(time.Until(l.ValidEnd).Seconds()))
 			if e < 0 {
 				e = 0
 			}
@@ -752,6 +900,11 @@ func (v *srv6) decode(o Op6, data []byte) string {
 				return "R6Reply " + na + " " + pd + " " + vh.Bool(rapid)
 			}
 			return fmt.Sprintf("R6Status %d", status)
+		case "inforeq":
+			if status == -1 && nIA == 0 && !rapid {
+				return "R6Info"
+			}
+			return fmt.Sprintf("R6Status %d (* Information-Request answered with status/IA *)", 910+nIA)
 		default:
 			return fmt.Sprintf("R6Status %d", status)
 		}
@@ -759,7 +912,7 @@ func (v *srv6) decode(o Op6, data []byte) string {
 	return "R6Status 907 (* unexpected message type *)"
 }
 
-var kinds6 = map[string]uint8{"solicit": dhcpv6.MsgTypeSolicit, "request": dhcpv6.MsgTypeRequest, "renew": dhcpv6.MsgTypeRenew,
+var kinds6 = map[string]uint8{"inforeq": dhcpv6.MsgTypeInformationRequest, "solicit": dhcpv6.MsgTypeSolicit, "request": dhcpv6.MsgTypeRequest, "renew": dhcpv6.MsgTypeRenew,
 	"rebind": dhcpv6.MsgTypeRebind, "confirm": dhcpv6.MsgTypeConfirm, "release": dhcpv6.MsgTypeRelease, "decline": dhcpv6.MsgTypeDecline}
 
 func (v *srv6) exec(o Op6) string {
@@ -805,6 +958,8 @@ func (v *srv6) exec(o Op6) string {
 			opT = "Release6 " + c
 		case "decline":
 			opT = "Decline6 " + c
+		case "inforeq": // NA/PD flags: IAs a confused client put into the message; the server must ignore them
+			opT = "InfoReq " + c
 		}
 		if o.K != "confirm" {
 			if o.NA {
@@ -840,6 +995,19 @@ func (v *srv6) exec(o Op6) string {
 }
 
 func run6(c Case6) vh.Case {
+	for try := 0; ; try++ {
+		t0 := time.Now()
+		vc := run6once(c)
+		if time.Since(t0) < maxDrift || try >= 20 {
+			if try >= 20 {
+				vc.Tags = append(vc.Tags, "slow-case:drift-not-bounded")
+			}
+			return vc
+		}
+	}
+}
+
+func run6once(c Case6) vh.Case {
 	v := newSrv6(&c)
 	tags := map[string]bool{}
 	var tr []string
@@ -879,7 +1047,9 @@ func alphabet6(nc int, full bool) []Op6 {
 				Op6{K: "solicit", C: c, Flag: true, NA: true},
 				Op6{K: "request", C: c, Flag: true, PD: true},
 				Op6{K: "rebind", C: c, NA: true},
+				Op6{K: "rebind", C: c, PD: true},
 				Op6{K: "confirm", C: c, Sym: "own"},
+				Op6{K: "inforeq", C: c, NA: true, PD: true},
 			)
 		}
 	}
@@ -890,14 +1060,20 @@ func alphabet6(nc int, full bool) []Op6 {
 	return a
 }
 
-func enum6(pool Case6, alpha []Op6, depth int, emit func(Case6)) {
+func enum6(pool Case6, alpha []Op6, depth int, sym bool, emit func(Case6)) {
 	idx := make([]int, depth)
 	for {
 		c := pool
+		var cs []int
 		for _, i := range idx {
 			c.Ops = append(c.Ops, alpha[i])
+			if alpha[i].K != "advance" {
+				cs = append(cs, alpha[i].C)
+			}
 		}
-		emit(c)
+		if !sym || canonical(cs) {
+			emit(c)
+		}
 		k := depth - 1
 		for k >= 0 {
 			idx[k]++
@@ -930,8 +1106,10 @@ func rand6(r *vh.Rng, maxOps int) Case6 {
 			o.K = "renew"
 		case x < 60:
 			o.K = "rebind"
-		case x < 68:
+		case x < 66:
 			o.K, o.Sym = "confirm", []string{"own", "other", "out", "none"}[r.Intn(4)]
+		case x < 68:
+			o.K = "inforeq"
 		case x < 80:
 			o.K = "release"
 		case x < 88:
@@ -940,7 +1118,7 @@ func rand6(r *vh.Rng, maxOps int) Case6 {
 				o.K = "release"
 			}
 		default:
-			o.K, o.D = "advance", []int{0, 1, valid6 - 1, valid6 + 1, valid6 / 2}[r.Intn(5)]
+			o.K, o.D = "advance", []int{0, 1, valid6 - 1, valid6, valid6 + 1, valid6 / 2}[r.Intn(6)]
 			if quiet {
 				o.D = r.Intn(2)
 			}
@@ -1008,40 +1186,58 @@ func main() {
 	}
 
 	r := vh.NewRng(cfg.Seed)
+	// emit a stream in about 8 equal shards (a coqc start costs as much as ~80 short cases)
+	emit := func(stream, header, footer string, cases []vh.Case, extra map[string]interface{}) {
+		cx := cfg
+		cx.Shard = (len(cases) + 7) / 8
+		if cx.Shard < 40 {
+			cx.Shard = 40
+		}
+		vh.Emit(cx, stream, header, footer, cases, extra)
+	}
 	// exhaustive part
-	var x4, x6 []vh.Case
-	d4, d6, n4, n6, maxOps := 3, 3, 250, 200, 30
+	var x4, b4, x6 []vh.Case
+	n4, n6, maxOps := 160, 120, 30
 	if cfg.Thorough() {
-		d4, d6, n4, n6, maxOps = 4, 4, 1500, 1200, 60
+		n4, n6, maxOps = 1500, 1200, 60
 	}
 	p4, p6 := pools4(), pools6()
 	add4 := func(c Case4) { x4 = append(x4, run4(c)) }
+	addb := func(c Case4) { b4 = append(b4, run4(c)) }
 	add6 := func(c Case6) { x6 = append(x6, run6(c)) }
-	_, _ = d4, d6
 	if !cfg.Thorough() {
-		enum4(p4[0], alphabet4(2, false), 3, add4) // 14^3
-		enum4(p4[0], alphabet4(2, true), 2, add4)  // 29^2
-		enum4(p4[2], alphabet4(2, false), 2, add4)
-		enum6(p6[0], alphabet6(2, false), 3, add6) // 11^3
-		enum6(p6[0], alphabet6(2, true), 2, add6)
+		enum4(p4[0], alphabet4(2, false), 3, true, add4) // 14^3 modulo client renaming
+		enum4(p4[0], alphabet4(2, true), 2, false, add4) // 29^2
+		enum4(p4[2], alphabet4(2, false), 2, true, add4)
+		boundary4(p4[2], 0, []int{0, 1}, []int{1}, addb) // 1 usable address, B acquires in between
+		boundary4(p4[2], 0, []int{0}, []int{0}, addb)
+		boundary4(p4[0], 1, []int{1}, []int{0}, addb)    // 2 usable, relayed with own circuit-ids, with a renewal
+		enum6(p6[0], alphabet6(2, false), 3, true, add6) // 11^3 modulo client renaming
+		enum6(p6[0], alphabet6(2, true), 2, false, add6) // 24^2
 	} else {
-		enum4(p4[0], alphabet4(2, true), 3, add4)  // 29^3
-		enum4(p4[2], alphabet4(2, false), 3, add4) // 14^3
-		enum4(p4[1], alphabet4(3, false), 3, add4) // 20^3
-		enum6(p6[0], alphabet6(2, true), 3, add6)  // 20^3
-		enum6(p6[1], alphabet6(3, false), 3, add6) // 16^3
+		enum4(p4[0], alphabet4(2, true), 3, false, add4)  // 29^3
+		enum4(p4[2], alphabet4(2, false), 3, false, add4) // 14^3
+		enum4(p4[1], alphabet4(3, false), 3, true, add4)  // 20^3 modulo client renaming
+		for _, pl := range []Case4{p4[2], p4[0], p4[3]} {
+			for mode := 0; mode < 3; mode++ {
+				boundary4(pl, mode, []int{0, 1}, []int{0, 1}, addb)
+			}
+		}
+		enum6(p6[0], alphabet6(2, true), 3, true, add6)  // 24^3 modulo client renaming (the v6 alphabet is the same for every client)
+		enum6(p6[1], alphabet6(3, false), 3, true, add6) // 16^3 modulo client renaming
 	}
-	ex := map[string]interface{}{"exhaustive": true, "note": "every op sequence of the stated depth over the stream's alphabet"}
-	vh.Emit(cfg, "dhcp4x", header4, footer4, x4, ex)
-	vh.Emit(cfg, "dhcp6x", header6, footer6, x6, ex)
+	ex := map[string]interface{}{"exhaustive": true, "note": "every op sequence of the stated depth over the stream's alphabet (symmetric alphabets: modulo renaming of the clients)"}
+	emit("dhcp4x", header4, footer4, x4, ex)
+	emit("dhcp4b", header4, footer4, b4, map[string]interface{}{"exhaustive": true, "note": "lease-expiry boundary scripts: renew? x advance{L-1,L,L+1} x tick? x 5 actions x tick? x 2 probes"})
+	emit("dhcp6x", header6, footer6, x6, ex)
 	// random part
 	var r4, r6 []vh.Case
 	for i := 0; i < n4; i++ {
 		r4 = append(r4, run4(rand4(r.Fork(), maxOps)))
 	}
 	for i := 0; i < n6; i++ {
-		r6 = append(r6, run6(rand6(r.Fork(), maxOps)))
+		r6 = append(r6, run6(rand6(r.Fork(), maxOps*2/3)))
 	}
-	vh.Emit(cfg, "dhcp4", header4, footer4, r4, nil)
-	vh.Emit(cfg, "dhcp6", header6, footer6, r6, nil)
+	emit("dhcp4", header4, footer4, r4, nil)
+	emit("dhcp6", header6, footer6, r6, nil)
 }
